@@ -38,7 +38,6 @@ pred cbDomain(p *CircuitBreakerPolicy) := p != nil && p.SlidingWindowSize >= 1 &
 
 func (p *CircuitBreakerPolicy) CreateWrapper() (w Wrapper)
   flag allocates
-  flag frame=unchecked
   requires validated-policy: cbDomain(p)
   modifies gCBPolicy, allof("ghost:github.com/megaease/easegress/pkg/util/circuitbreaker.clock")
   ensures breaker-runs-with-the-configured-numbers: let q = ptr(gCBPolicy, "*circuitbreaker.Policy") in (gCBPolicy != 0 && q.FailureRateThreshold == p.FailureRateThreshold && q.SlowCallRateThreshold == p.SlowCallRateThreshold && q.SlidingWindowSize == p.SlidingWindowSize && q.PermittedNumberOfCallsInHalfOpen == p.PermittedNumberOfCallsInHalfOpen && q.MinimumNumberOfCalls == p.MinimumNumberOfCalls)
@@ -74,8 +73,7 @@ ghost var gPermitted bool
 func (w circuitBreakerWrapper) Wrap(handler HandlerFunc) (wrapped HandlerFunc)
   closure[1] (ctx context.Context) (err error)
     requires w.CircuitBreaker != nil && circuitbreaker.policyOK(w.CircuitBreaker.policy) && handler != nil
-    flag frame=unchecked
-    modifies hCalls, hErrNil, hLast, recorded, gPermitted
+    modifies hCalls, hErrNil, hLast, recorded, gPermitted, allof("ghost:github.com/megaease/easegress/pkg/util/circuitbreaker.clock"), allof("ghostf:github.com/megaease/easegress/pkg/util/circuitbreaker.CircuitBreaker.pushedFailure"), allof("ghostf:github.com/megaease/easegress/pkg/util/circuitbreaker.CircuitBreaker.pushedSlow"), allof("ghostf:github.com/megaease/easegress/pkg/util/circuitbreaker.CircuitBreaker.pushedTotal"), allof("util/circuitbreaker.CircuitBreaker.numberOfCallsInHalfOpen"), allof("util/circuitbreaker.CircuitBreaker.state"), allof("util/circuitbreaker.CircuitBreaker.stateID"), allof("util/circuitbreaker.CircuitBreaker.transitTime"), allof("util/circuitbreaker.CircuitBreaker.window#typ"), allof("util/circuitbreaker.CircuitBreaker.window#val"), allof("util/circuitbreaker.CountBasedWindow.bucketIdx"), allof("util/circuitbreaker.CountBasedWindow.failure"), allof("util/circuitbreaker.CountBasedWindow.slow"), allof("util/circuitbreaker.CountBasedWindow.total"), allof("util/circuitbreaker.TimeBasedWindow.beginAt"), allof("util/circuitbreaker.TimeBasedWindow.failure"), allof("util/circuitbreaker.TimeBasedWindow.firstBucket"), allof("util/circuitbreaker.TimeBasedWindow.slow"), allof("util/circuitbreaker.TimeBasedWindow.total")
     ensures short-circuit-skips-the-handler: !gPermitted ==> err == ErrShortCircuited && hCalls == old(hCalls) && recorded == old(recorded)
     ensures permitted-call-runs-once-and-records-once: gPermitted ==> hCalls == old(hCalls) + 1 && recorded == old(recorded) + 1 && err == hLast
     ghost at call[1] AcquirePermission: gPermitted := ok
